@@ -195,10 +195,13 @@ def check_guards(project: Project, rep):
         sub = c.methods["__sub__"]
         s = oa.summary(sub.qualname)
         callees = {t for t, _ in s.repo_calls}
-        if add.qualname in callees and f"{cq}.__neg__" in callees:
+        negs = {f"{cq}.__neg__", f"{cq}.__mul__", f"{cq}.__rmul__"}
+        if add.qualname in callees and (callees & negs):
             rep.discharged("AR-GUARD", sub, sub.node, "__sub__ is __add__ of the negation (same guards apply)")
         else:
-            rep.refuted("AR-GUARD", sub, sub.node, f"__sub__ does not go through __add__ and __neg__ (calls {sorted(callees)})")
+            rep.unmodelled("AR-GUARD", sub, sub.node, f"__sub__ does not go through __add__ and a negation (calls "
+                                                      f"{sorted(callees)}): the difference is computed some other way, which is "
+                                                      f"not decided here")
     snap = "persim.landscapes.tools.snap_pl"
     for q in ("persim.landscapes.tools.lc_approx", "persim.landscapes.tools.average_approx"):
         fi = project.function(q)
@@ -482,6 +485,78 @@ def check_pad_snap(project: Project, rep):
         rep.unmodelled("AR-SNAP", sp, sp.node, "construction of the re-sampled landscape not found")
 
 
+def check_arm_consistency(project: Project, rep):
+    """AR-SIGN (sibling-arm agreement, Engler et al.): in the depth-pairing loops of the merge helpers, a numeric parameter
+    with a neutral default (e.g. sign=1) that transforms one operand's depth in one arm of an if/elif/else chain must be
+    applied in every other arm that passes that operand's depth on — otherwise the operation is pointwise only where both
+    operands have that depth (a missing depth counts as the zero function, so the other operand's depth must still be
+    transformed)."""
+    n_fn = 0
+    for q in ("persim.landscapes.auxiliary.union_crit_pairs", "persim.landscapes.auxiliary.union_vals",
+              "persim.landscapes.auxiliary.sum_slopes"):
+        fi = project.functions.get(q)
+        if fi is None:
+            continue
+        n_fn += 1
+        f = fn_view(project, fi)
+        a = f.args
+        pos = a.posonlyargs + a.args
+        defaults = dict(zip([x.arg for x in pos[len(pos) - len(a.defaults):]], a.defaults))
+        defaults.update({x.arg: d for x, d in zip(a.kwonlyargs, a.kw_defaults) if d is not None})
+        nums = {p_ for p_, d in defaults.items() if isinstance(d, (ast.Constant, ast.UnaryOp))
+                and isinstance(getattr(d, "value", getattr(getattr(d, "operand", None), "value", None)), (int, float))
+                and not isinstance(getattr(d, "value", None), bool)}
+        if not nums:
+            continue
+        for lp in [n for n in ast.walk(f) if isinstance(n, ast.For)]:
+            lvars = {x.id for x in ast.walk(lp.target) if isinstance(x, ast.Name)}
+            # arms of the if-chains directly in the loop body
+            for st in lp.body:
+                if not isinstance(st, ast.If):
+                    continue
+                arms, cur = [], st
+                while True:
+                    arms.append(cur.body)
+                    if len(cur.orelse) == 1 and isinstance(cur.orelse[0], ast.If):
+                        cur = cur.orelse[0]
+                    else:
+                        if cur.orelse:
+                            arms.append(cur.orelse)
+                        break
+                for p_ in sorted(nums):
+                    scaled = set()
+                    for arm in arms:
+                        for stmt in arm:
+                            parents = {}
+                            for node in ast.walk(stmt):
+                                for ch in ast.iter_child_nodes(node):
+                                    parents[id(ch)] = node
+                            for node in ast.walk(stmt):
+                                if isinstance(node, ast.Name) and node.id == p_ and isinstance(node.ctx, ast.Load):
+                                    up = node
+                                    while id(up) in parents:
+                                        up = parents[id(up)]
+                                        hit = {x.id for x in ast.walk(up) if isinstance(x, ast.Name) and x.id in lvars}
+                                        if hit:
+                                            scaled |= hit
+                                            break
+                    for v in sorted(scaled):
+                        for arm in arms:
+                            uses_v = any(isinstance(x, ast.Name) and x.id == v and isinstance(x.ctx, ast.Load)
+                                         for stmt in arm for x in ast.walk(stmt))
+                            uses_p = any(isinstance(x, ast.Name) and x.id == p_ for stmt in arm for x in ast.walk(stmt))
+                            if uses_v and not uses_p:
+                                rep.refuted("AR-SIGN", fi, arm[0],
+                                            f"`{p_}` transforms the depth `{v}` where both operands have that depth, but the arm "
+                                            f"`{ast.unparse(arm[0])[:70]}` passes `{v}` on untouched: with {p_} != {ast.unparse(defaults[p_])} "
+                                            f"the result is not pointwise at depths only one operand has (e.g. A − B with B deeper "
+                                            f"gives +B_k instead of −B_k there)",
+                                            construct=f"{q}: arm without {p_}")
+    if not any(o["rule"] == "AR-SIGN" for o in rep.obligations):
+        rep.discharged("AR-SIGN", None, None, f"{n_fn} merge helpers: no parameter is applied to an operand's depth in one arm "
+                                              f"of the depth pairing and omitted in another", nontrivial=False)
+
+
 def check_lincomb(project: Project, rep):
     """AR-LC: a linear combination is Σ coeff·landscape through the landscape operators (so zero padding of missing
     depths and the mismatch guards apply), or, when it works on raw value arrays, aligns depths by zero padding"""
@@ -538,6 +613,7 @@ def run(project: Project, rep, tier: str):
     check_unary(project, rep)
     check_pad_snap(project, rep)
     check_lincomb(project, rep)
+    check_arm_consistency(project, rep)
     for rn, n in (("AR-EFFECT", 30), ("AR-OWN", 30), ("AR-LAZY", 4), ("AR-GUARD", 9), ("AR-UNARY", 11), ("AR-PAD", 5), ("AR-SNAP", 2), ("AR-LC", 1)):
         rep.floor(rn, n)
     for t in ("numpy.pad", "numpy.interp", "itertools.zip_longest"):
